@@ -22,6 +22,18 @@ def mutil_is_hermitian_rtol : Rat := (0 : Rat)
 /-- quara/utils/matrix_util.py:124 `np.isclose(eigvals_array, 0, atol=atol, rtol=0.0)` -/
 def mutil_is_psd_eig_rtol : Rat := (0 : Rat)
 
+/-- quara/objects/matrix_basis.py:140 `np.isclose(i_product, 0, atol=Settings.get_atol())`  (rtol keyword absent: default) -/
+def mb_is_orthogonal_rtol : Rat := (mkRat (1) 100000)
+
+/-- quara/objects/matrix_basis.py:155 `np.isclose(i_product, 1, atol=Settings.get_atol())`  (rtol keyword absent: default) -/
+def mb_is_normal_rtol : Rat := (mkRat (1) 100000)
+
+/-- quara/objects/matrix_basis.py:264 `np.isclose(i_product, 0, atol=Settings.get_atol())`  (rtol keyword absent: default) -/
+def smb_is_orthogonal_rtol : Rat := (mkRat (1) 100000)
+
+/-- quara/objects/matrix_basis.py:249 `mutil.isclose(i_product, 1, atol=Settings.get_atol())`  (rtol keyword absent: default) -/
+def smb_is_normal_rtol : Rat := (mkRat (1) 100000)
+
 /-- quara/settings.py `Settings.__atol` -/
 def settings_atol : Rat := (mkRat (1) 10000000000000)
 
